@@ -65,6 +65,11 @@ CLAIMS = {
         text="The option store is a TLA+ machine: Begin merges the call's options into the global store, Emit is one nested object seeing the store, Fail raises at a chosen nested object, End returns; TLC checks Clean (store empty between calls) and Sees (every nested object sees exactly the call's options) over all call sequences x option subsets x failure points, and that the spec variants modelling the two calibration mutants violate Clean. Every completed sequence is replayed on a 3-level tree with an armable failing property / corrupted payloads through all eight entry points: outcome, per-object output features for every option, and a default probe after every call. Random 25-call sequences are recorded (what each nested node exhibited, probe clean) and validated by Trace_SerOpts.tla.",
         note="Trusted: TLC; feature extraction of the driver. The default-tagging clause is asserted for calls without the test dialect and without tag suppression; under the test dialect index-based sources are not observable (masked in the trace spec).",
         design="6 C16"),
+    "C12": dict(
+        technique="TLA+ oracle (Accessors.tla: dataclass field order with in-place overrides, flag filter, name order, child enumeration) + TLC generation of class hierarchies and first-use orders replayed against freshly defined classes",
+        text="Accessors.tla derives from the class bodies alone the dataclass field order (inherited first, a re-declared field keeps its slot), the property / child split, the flag filter (system fields on their own flags) and the expected output of all eight accessors; TLC checks structural invariants and generates every hierarchy over a ten-entry field menu (bounded classes and fields per class) with the expected results for all 32 flag combinations x sort_keys and every instance (absent optionals, empty tuples, falsy children), plus every order of first use of the four self-installing generated accessors on a fixed three-level hierarchy with an overridden field. Each case is replayed in a fresh module namespace so first use really is first use.",
+        note="Trusted: TLC, the class renderer (menu entry -> dataclass field), CPython dataclasses. No code->spec trace direction: the quantified object is the class definition, which the TLC generator enumerates; every exported case is executed against the library.",
+        design="6 C12"),
     "C10": dict(
         technique="TLA+ action properties (Immutable, MembershipFrame, FailFrame) on Registry.tla + Observe actions replayed with per-step fingerprints of every live node",
         text="In the Registry machine no action changes the record of a surviving slot (Immutable) and registry membership changes only in detach / detach_self / replace on the receiver's subtree (MembershipFrame); Observe actions stand for every read-only operation kind (traversals, Tree queries, xpath, patterns, visitors, transformers, comparison, hashing, rich printing, accessors, (de)serialization, setattr / delattr on every field) and are UNCHANGED. TLC exports every transition; the driver fingerprints every live node before each call and compares after it, and compares the whole abstract state with the spec's. Recorded histories are checked the same way at every step.",
